@@ -88,14 +88,15 @@ def P(pid, module=None, namespaces=None, extra=(), **kw):
     PROPS[pid] = d
 
 
-P("C01", namespaces=["C01"], level_text="Theorem C01.valid_json: for every RFC 8259 text within the limits (relational grammar lean/AJ/Spec/Json.lean: any whitespace layout, escape spelling, number spelling, key set "
+P("C01", module="AJ.Props.C01All", extra=[("AJ.Props.C01", ["C01"]), ("AJ.Props.C01Doc", ["C01"])], level_text="C01.slot_level_refines / valid_json_slot_level: the SLOT-LEVEL model of deserializeJson (lean/AJ/Model/JDD.lean: the real document structure, string builder, allocator) refines the value-level one - whenever no allocation fails it returns the same code, consumes the same bytes and leaves a document whose abstract value is the value-level result (for every code, partial documents included); hence every RFC text within the limits, deserialized into ANY document with a non-failing allocator, leaves a well-formed document denoting exactly the value the text denotes. Theorem C01.valid_json: for every RFC 8259 text within the limits (relational grammar lean/AJ/Spec/Json.lean: any whitespace layout, escape spelling, number spelling, key set "
   "incl. empty/NUL/prefix/repeated keys; nesting <= L, strings <= maxStrLen, literals <= 63 bytes) the deserializer model returns Ok and exactly the denoted document (last occurrence "
   "wins, integers exact, other numbers = parseNumber), for every flag configuration with DECODE_UNICODE=1; proved by mutual induction on derivations with an explicit fuel bound. The model is "
   "compared with deserializeJson on grammar-generated valid texts (repeated keys, NUL keys, prefix keys, all escape spellings, prefilled destinations, nine "
   "reader kinds) and the implementation's document is checked against the value the generator knows the text denotes.",
   level_note="Lean kernel; the limits are part of the grammar because a repeated key hides the value it overwrites (kernel-checked counterexample to the naive statement); "
   "floating-point accuracy is C12's concern; 'destination entirely replaced' is checked by the correspondence (prefilled documents)",
-  suites=lambda tier: [S.JsonValidSuite(cfg=DEF), S.JsonValidSuite(cfg=CFG_ALL, n=1500 if tier == "quick" else 100000), S.ReuseSuite(cfg=DEF, n=80 if tier == "quick" else 4000)],
+  suites=lambda tier: [S.JsonValidSuite(cfg=DEF), S.JsonValidSuite(cfg=CFG_ALL, n=1500 if tier == "quick" else 100000), S.ReuseSuite(cfg=DEF, n=80 if tier == "quick" else 4000),
+                       S.JsonDocSuite(cfg=DEF, n=800 if tier == "quick" else 60000)],
   partial=[])
 
 P("C02", module="AJ.Props.C02All", extra=[("AJ.Props.C02", ["C02"]), ("AJ.Props.C02Parse", ["C02"])],
@@ -112,7 +113,7 @@ P("C02", module="AJ.Props.C02All", extra=[("AJ.Props.C02", ["C02"]), ("AJ.Props.
   ([S.JsonSerSuite(cfg=CFG_ALL, n=20000), S.JsonSerSuite(cfg={"arduino": 1}, n=20000)] if tier == "thorough" else [S.JsonSerSuite(cfg=CFG_ALL, n=600), S.JsonSerSuite(cfg={"arduino": 1}, n=400)]),
   partial=["NaN/Infinity texts under the non-standard options are outside the grammar by design"])
 
-P("C03", level_text="Theorems for every configuration, limit, filter and byte string, JSON (filtered and unfiltered) and MessagePack: the deserializer never takes more bytes "
+P("C03", module="AJ.Props.C03All", extra=[("AJ.Props.C03", ["C03"]), ("AJ.Props.C03Doc", ["C03"])], level_text="C03.deserialized_document_wf(_any_oracle) / _traversable / _clearable / _reusable: for EVERY byte string, limit, configuration, starting document and allocator-failure schedule, the slot-level model of deserializeJson leaves a well-formed document (chains acyclic, slots used once and live, reference counts sufficient) that can be traversed, cleared and deserialized into again, whatever code is returned. Theorems for every configuration, limit, filter and byte string, JSON (filtered and unfiltered) and MessagePack: the deserializer never takes more bytes "
   "than the input has; it terminates (the model's fuel 2*len+4 is never exhausted) and never reaches a fault state (powers-of-ten table index in range for every literal); the code is "
   "one of the six documented ones. The model is compared with the real library on bounded-exhaustive token sequences, mutated and random inputs through nine reader kinds, inputs in "
   "exactly-sized heap blocks under ASan+UBSan; source independence is checked on the implementation directly.",
@@ -156,7 +157,7 @@ P("C09", module="AJ.Props.C09All", extra=[("AJ.Props.C09", ["C09"]), ("AJ.Props.
                        S.MpDeSuite(cfg={"USE_LONG_LONG": 0}, n=800 if tier == "quick" else 40000)],
   partial=["value of non-minimal encodings as a theorem"])
 
-P("C10", module="AJ.Props.C10All", extra=[("AJ.Props.C10", ["C10"]), ("AJ.Props.C10Class", ["C10"])], level_text="Theorems C10.accepts_iff / ok_iff_dialect: for every configuration (comments, NaN, Infinity, unicode decoding on or off), nesting limit and byte string, the deserializer model "
+P("C10", module="AJ.Props.C10All", extra=[("AJ.Props.C10", ["C10"]), ("AJ.Props.C10Class", ["C10"]), ("AJ.Props.C01Doc", ["C10"])], level_text="Theorems C10.accepts_iff / ok_iff_dialect: for every configuration (comments, NaN, Infinity, unicode decoding on or off), nesting limit and byte string, the deserializer model "
   "returns Ok with value v exactly when the text is `white space/comments, one value of the documented dialect denoting v, then anything` (declarative grammar lean/AJ/Spec/Dialect.lean: single and double "
   "quotes, unquoted keys, lenient numbers, NaN/Infinity when enabled, comments when enabled, raw control bytes in strings); C10.sound and C10.complete are the two directions; "
   "C10.unclosed_refused / unclosed_never_ok: an unclosed string, array or object is never Ok; C10.empty_iff: EmptyInput exactly for inputs that are only white space/comments; C10.disabled_*: the "
@@ -207,7 +208,7 @@ P("C13", module="AJ.Props.C13All", extra=[("AJ.Props.C13", ["C13"]), ("AJ.Props.
   level_note="writes outside the destination on the binary are observed by ASan and the guard pattern; the model has destinations of fixed length by construction",
   suites=lambda tier: [S.ConvSuite(cfg=DEF), S.CopyArrSuite(cfg=DEF)])
 
-P("C15", level_text="Theorems for JSON (filtered and unfiltered) and MessagePack, any bytes, any limit: Ok implies nesting <= L; L+1 opening brackets/headers give TooDeep after exactly "
+P("C15", module="AJ.Props.C15All", extra=[("AJ.Props.C15", ["C15"]), ("AJ.Props.C01Doc", ["C15"])], level_text="Theorems for JSON (filtered and unfiltered) and MessagePack, any bytes, any limit: Ok implies nesting <= L; L+1 opening brackets/headers give TooDeep after exactly "
   "L+1 bytes, also inside discarded parts; raising the limit changes nothing unless the result was TooDeep (never otherwise). Stack use is compared between inputs of depth L+1 and 2000.",
   level_note="stack bytes are observed on the binary; 'as soon as' for nested objects is covered by the correspondence",
   suites=lambda tier: [S.DepthSuite(cfg=DEF)])
@@ -263,7 +264,7 @@ P("C04", module="AJ.Props.C04All", extra=[("AJ.Props.C04", ["C04"]), ("AJ.Props.
   ([S.HistSuite(cfg=G[g], nh=1500) for g in ("tiny2", "id1c10", "id1i3", "len1", "len4")] if tier == "thorough" else []),
   partial=["document-level copy/swap/move as theorems"])
 
-P("C05", module="AJ.Props.C05All", extra=[("AJ.Props.C05", ["C05"]), ("AJ.Props.C05Doc", ["C05"]), ("AJ.Props.C05Copy", ["C05"])],
+P("C05", module="AJ.Props.C05All", extra=[("AJ.Props.C05", ["C05"]), ("AJ.Props.C05Doc", ["C05"]), ("AJ.Props.C05Copy", ["C05"]), ("AJ.Props.C05Deser", ["C05"])],
   level_text="Theorems at the slot-pool level for every state reachable under every failure oracle (one-shot positions and fail-from-k): a failed allocation changes no "
   "live slot and keeps the pool invariant, clear() returns every block, and the allocator works again afterwards. At document level (C05.add_element_fail_clean, set_fail_clean, "
   "add_member_fail_clean): when adding an element, storing a value or adding a member fails for lack of memory, the document is flagged overflowed, stays well-formed (WF), denotes exactly "
@@ -275,14 +276,16 @@ P("C05", module="AJ.Props.C05All", extra=[("AJ.Props.C05", ["C05"]), ("AJ.Props.
   "API histories generated online against the model (so that only usable references are touched) are run under single, fail-from-k and multi-failure schedules on an instrumented allocator: "
   "every observation and allocator log is compared with the slot-level model, and the implementation is checked for crashes (ASan/UBSan), leaks at clear(), misuse of the allocator, "
   "unreported failures and collateral changes; deserialization is run under every single-failure position.",
-  level_note="failure inside the deserializers rests on the fault-schedule correspondence (every single-failure position) and its oracles; documents keep their own allocator in these histories (no copy-assignment/swap)",
+  level_note="C05.deser_failure_reported / deser_failure_leaves_wf_and_clear_returns_all: for deserializeJson (slot-level model) under ANY failure schedule: Ok implies not overflowed, NoMemory implies overflowed, "
+  "overflowed implies not Ok; the document stays well formed and clear() returns every block. deserializeMsgPack has the slot-level model and the allocator-log correspondence (mpdoc), its theorems are in progress; "
+  "documents keep their own allocator in the fault histories (no copy-assignment/swap)",
   suites=lambda tier: [S.FaultSuite(cfg=G["default"]), S.FaultSuite(cfg=G["tiny1"], nh=120 if tier == "quick" else 3000), S.FaultSuite(cfg=G["tiny2"], nh=80 if tier == "quick" else 3000),
                        S.DeserFaultSuite(cfg=G["default"]), S.DeserFaultSuite(cfg=G["tiny2"], n=300 if tier == "quick" else 20000),
                        S.JsonDocSuite(cfg=DEF, n=1500 if tier == "quick" else 150000), S.MpDocSuite(cfg=DEF, n=1500 if tier == "quick" else 150000)] +
   ([S.FaultSuite(cfg=G[g], nh=2000) for g in ("id1", "tiny2", "id1c10")] if tier == "thorough" else []),
-  partial=["failure inside the deserializers as a theorem"])
+  partial=["failure inside deserializeMsgPack as a theorem"])
 
-P("C06", module="AJ.Props.C06All", extra=[("AJ.Props.C19", ["C06"]), ("AJ.Props.C06Doc", ["C06"])],
+P("C06", module="AJ.Props.C06All", extra=[("AJ.Props.C19", ["C06"]), ("AJ.Props.C06Doc", ["C06"]), ("AJ.Props.C05Deser", ["C06"])],
   level_text="Theorems at the slot-pool level: a released slot is reused before any allocator call, the allocator is called only "
   "when the free list is empty and the last pool is full or absent, clear() releases exactly one block per pool plus the heap table and nothing else. At document level (C06Doc): "
   "free_after_clear / clear_then_add(s)_no_allocator_call - the slots released by clearing a subtree are exactly those handed out by the next insertions, with no allocator call; "
